@@ -33,7 +33,7 @@ STATE_MEASURE = 'distinct (descriptor counts per message, max descriptors queued
 PROBES = ['fd-of-next-message-queued-early', 'fds-of-two-later-messages-queued',
           'fd-with-last-byte', 'fd-with-first-byte', 'plain-message-between-fd-messages',
           'index-out-of-order', 'three-descriptors', 'send-side', 'read-spans-messages', 'undecodable-message-with-descriptors',
-          'dropped-at-undecodable-message', 'prepared-message-sent-twice', 'receiver-is-client-connection', 'receiver-accepts-pipelined-handshake', 'same-descriptor-in-two-arguments']
+          'dropped-at-undecodable-message', 'prepared-message-sent-twice', 'receiver-is-client-connection', 'receiver-accepts-pipelined-handshake', 'same-descriptor-in-two-arguments', 'reply-to-a-cancelled-call-carries-descriptors']
 COMPONENTS = {
     'real': ['txdbus.protocol.BasicDBusProtocol (fileDescriptorReceived, rawDBusMessageReceived)',
              'txdbus.message.parseMessage / txdbus.marshal unmarshal_unix_fd',
@@ -132,6 +132,7 @@ def recv_side(ctx):
             record.append(m)
 
     pipelined = False
+    cancelled_serial = None
     client_rx = ds.flag(0.3)
     if client_rx:
         # the receiver is a real client connection (Hello answered, no call outstanding): replies
@@ -140,9 +141,21 @@ def recv_side(ctx):
         rig = ClientRig(ctx, unix=True)
         proto, conn = rig.proto, rig.conn
         for hname in ('methodCallReceived', 'signalReceived', 'methodReturnReceived', 'errorReceived'):
-            setattr(proto, hname, record.append)
+            def traced(m, orig=getattr(proto, hname)):
+                record.append(m)
+                if m.__class__.__name__ != 'MethodCallMessage':
+                    orig(m)           # (calls would be answered UnknownObject: not of interest)
+            setattr(proto, hname, traced)
         tx = conn.b
         pipe = conn.pipes[1]
+        if ds.flag(0.4):
+            # the owner of an outstanding call gave up on it (d.cancel()); its reply, carrying
+            # descriptors, comes all the same - followed by other descriptor-carrying messages
+            sim.probe('reply-to-a-cancelled-call-carries-descriptors')
+            dcan = rig.call(proto.callRemote, '/svc', 'Open', interface='org.sim.Fd', destination='org.sim.svc')
+            dcan.addErrback(lambda f: None)
+            cancelled_serial = rig.sent[-1].serial
+            rig.call(dcan.cancel)
     elif ds.flag(0.3):
         # the receiver is the accepting side and the peer pipelines its handshake with its first
         # messages: descriptors may arrive in the read that still holds the BEGIN line
@@ -195,13 +208,15 @@ def recv_side(ctx):
         if idxs != sorted(idxs):
             sim.probe('index-out-of-order')
         mt = ds.pick([1, 4, 2])
+        if i == 0 and cancelled_serial is not None:
+            mt = 2
         f = {}
         if mt in (1, 4):
             f[rc.F_PATH] = '/fd'
             f[rc.F_MEMBER] = 'Pass'
             f[rc.F_INTERFACE] = 'org.sim.Fd'
         else:
-            f[rc.F_REPLY_SERIAL] = 77
+            f[rc.F_REPLY_SERIAL] = cancelled_serial if (i == 0 and cancelled_serial is not None) else 77
         if nfd:
             f[rc.F_UNIX_FDS] = nfd
         m = rc.Msg(mt, 100 + i, f, sig, body, little=not ds.flag(0.2))
